@@ -126,7 +126,8 @@ def default_ports() -> List[int]:
     return list(inspect.signature(SwitcherBridge.__init__).parameters["broadcast_ports"].default)
 
 
-async def _run_bridge_sequence(nports: int, arrivals: List[Tuple[int, str]], fail_on, wellknown=False) -> Tuple[str, List[str]]:
+async def _run_bridge_sequence(nports: int, arrivals: List[Tuple[int, str]], fail_on, wellknown=False, restart=False,
+                               burst=False) -> Tuple[str, List[str]]:
     """arrivals: (port index, datagram hex).  One datagram in flight at a time per test step: after each
     datagram a sentinel on the same port is the delivery barrier (UDP on loopback keeps per-socket order)."""
     from aioswitcher.bridge import SwitcherBridge
@@ -150,9 +151,39 @@ async def _run_bridge_sequence(nports: int, arrivals: List[Tuple[int, str]], fai
     order: List[Tuple[int, str]] = []
     with warnings.catch_warnings(record=True):
         warnings.simplefilter("always")
-        await bridge.start()
+        try:
+            await bridge.start()
+        except OSError:
+            if wellknown:           # somebody else (another check running at the same time) took a well-known port meanwhile
+                tx.close()
+                return "0 NOT-RUN(the well-known ports are in use on this machine right now)", []
+            raise
+        if restart:                 # a bridge that has been stopped and started again is a running bridge like any other
+            await bridge.stop()
+            await asyncio.sleep(0)
+            await asyncio.sleep(0)
+            await bridge.start()
         try:
             k = 0
+            if burst:
+                # all datagrams at once, nothing in between; then one sentinel per port used.  Across ports the order of arrival is
+                # the kernel's, so what is compared is the multiset of deliveries (shown sorted, port "*")
+                n0 = len(col.calls)
+                for (pi, hexd) in arrivals:
+                    tx.sendto(bytes.fromhex(hexd) if hexd != "-" else b"", ("127.0.0.1", ports[pi]))
+                used = sorted({pi for pi, _ in arrivals})
+                s0 = col.sentinels
+                for pi in used:
+                    k += 1
+                    tx.sendto(sentinel_datagram(k), ("127.0.0.1", ports[pi]))
+                ok = await pump(lambda: col.sentinels >= s0 + len(used), timeout=2.5)
+                await asyncio.sleep(0.01)
+                order += [("*", c[1]) for c in sorted(col.calls[n0:], key=lambda c: c[1])]
+                if not ok:
+                    order.append(("*", "BARRIER-LOST(the bridge stopped delivering)"))
+                    global LOST
+                    LOST += 1
+                arrivals = []
             for (pi, hexd) in arrivals:
                 cb.current_port = pi
                 n0 = len(col.calls)
@@ -165,7 +196,6 @@ async def _run_bridge_sequence(nports: int, arrivals: List[Tuple[int, str]], fai
                     order.append((pi, c[1]))
                 if not ok:
                     order.append((pi, "BARRIER-LOST(the bridge stopped delivering)"))
-                    global LOST
                     LOST += 1
                     break
         finally:
@@ -179,8 +209,8 @@ async def _run_bridge_sequence(nports: int, arrivals: List[Tuple[int, str]], fai
 GIVE_UP_AFTER = 3  # lost barriers after which further sequences are not attempted (set to a large number while shrinking a failure)
 
 
-def run_bridge_sequence(nports: int, arrivals, fail_on=(), wellknown=False) -> str:
+def run_bridge_sequence(nports: int, arrivals, fail_on=(), wellknown=False, restart=False, burst=False) -> str:
     if LOST >= GIVE_UP_AFTER:
         return "0 NOT-RUN(the bridge lost deliveries in 3 earlier sequences)"
-    shown, errs = H.loop().run_until_complete(_run_bridge_sequence(nports, arrivals, fail_on, wellknown))
+    shown, errs = H.loop().run_until_complete(_run_bridge_sequence(nports, arrivals, fail_on, wellknown, restart, burst))
     return shown
